@@ -27,6 +27,8 @@ MUTANTS = [
     ("C04", "ValidateInterval", "line/edge/gfa2/validation.py", "  if gfapy.posvalue(begpos) > gfapy.posvalue(endpos):", "  if gfapy.posvalue(begpos) >= gfapy.posvalue(endpos):"),
     ("C04", "ValidateIntervals_F", "line/fragment/validation.py", '    for pfx in ["s_", "f_"]:', '    for pfx in ["s_"]:'),
     ("C04", "Field_integer_validate_encoded", "field/integer.py", r'"^[-+]?[0-9]+\Z"', r'"^[-+]?[0-9]+$"'),
+    ("C18", "Field_identifier_list_gfa2_validate_decoded", "field/identifier_list_gfa2.py", "    if len(obj) == 0:\n      raise gfapy.ValueError(\"the list of identifiers is empty\")\n", ""),
+    ("C18", "Field_identifier_list_gfa2_validate_decoded", "field/identifier_list_gfa2.py", '      if not re.match(r"^[!-~]+\\Z", elem):\n        raise gfapy.FormatError(\n        "the list contains', '      if not re.match(r"^[ -~]+\\Z", elem):\n        raise gfapy.FormatError(\n        "the list contains'),
     ("C16", "Topology_n_dead_ends", "graph_operations/topology.py", "      if not s.dovetails_R: n+=1", "      if s.dovetails_R: n+=1"),
     ("C16", "Topology_n_containments", "graph_operations/topology.py", "      n += len(s.edges_to_containers)", "      n += len(s.edges_to_contained)"),
     ("C16", "Topology_n_dovetails", "graph_operations/topology.py", "      n += len(s.dovetails_R)\n    return n // 2", "      n += len(s.dovetails_R)\n    return n"),
